@@ -111,6 +111,8 @@ pub struct BlockDict {
     pub blocks: Vec<Option<Block>>,
     variants: HashMap<(u64, i64, usize), usize>,
     pub fresh: Vec<usize>,
+    /// ids of this dictionary are base+1, base+2, ... (0 is genesis); lets one trace file hold many runs
+    pub base: usize,
 }
 
 pub const BASE_PORT: u16 = 9_000;
@@ -162,8 +164,9 @@ async fn settle(rounds: usize) {
 }
 
 impl BlockDict {
-    pub fn new() -> Self {
+    pub fn new(base: usize) -> Self {
         let mut d = BlockDict::default();
+        d.base = base;
         d.by_digest.insert(Digest::default(), 0);
         d.by_digest.insert(Block::genesis().digest(), 0);
         d.info
@@ -176,6 +179,42 @@ impl BlockDict {
         self.by_digest.get(d).cloned()
     }
 
+    fn next_id(&self) -> usize {
+        self.base + self.info.len()
+    }
+
+    fn ix(&self, id: usize) -> usize {
+        if id == 0 {
+            0
+        } else {
+            id - self.base
+        }
+    }
+
+    pub fn block_of(&self, id: usize) -> Option<&Block> {
+        self.blocks[self.ix(id)].as_ref()
+    }
+
+    pub fn info_of(&self, id: usize) -> &Value {
+        &self.info[self.ix(id)]
+    }
+
+    /// The dictionary records of this run, in id order.
+    pub fn records(&self) -> Vec<Value> {
+        self.info
+            .iter()
+            .skip(1)
+            .map(|v| {
+                let mut v = v.clone();
+                v["t"] = json!("blk");
+                if let Some(o) = v.as_object_mut() {
+                    o.remove("unknown");
+                }
+                v
+            })
+            .collect()
+    }
+
     /// Register a block description (from a hook event or built by the harness); returns its id.
     pub fn intern(
         &mut self,
@@ -186,17 +225,18 @@ impl BlockDict {
         payload_key: &str,
         block: Option<Block>,
     ) -> usize {
-        if let Some(id) = self.by_digest.get(&digest) {
-            if self.blocks[*id].is_none() && block.is_some() {
-                self.blocks[*id] = block;
+        if let Some(id) = self.by_digest.get(&digest).cloned() {
+            let ix = self.ix(id);
+            if self.blocks[ix].is_none() && block.is_some() {
+                self.blocks[ix] = block;
             }
-            return *id;
+            return id;
         }
         let parent_id = match self.by_digest.get(parent) {
             Some(p) => *p,
             None => {
                 // unknown parent: a placeholder whose own ancestry is unknown
-                let pid = self.info.len();
+                let pid = self.next_id();
                 self.by_digest.insert(parent.clone(), pid);
                 self.info.push(
                     json!({"id":pid,"round":-1,"author":-2,"parent":0,"variant":pid, "unknown":true}),
@@ -207,7 +247,7 @@ impl BlockDict {
             }
         };
         let _ = payload_key;
-        let id = self.info.len();
+        let id = self.next_id();
         let vkey = (round, author, parent_id);
         let variant = *self.variants.entry(vkey).and_modify(|v| *v += 1).or_insert(0);
         self.by_digest.insert(digest, id);
@@ -218,19 +258,32 @@ impl BlockDict {
         id
     }
 
+    pub fn placeholder(&mut self, d: Digest, round_hint: i64) -> usize {
+        let id = self.next_id();
+        self.by_digest.insert(d, id);
+        self.info
+            .push(json!({"id":id,"round":round_hint,"author":-2,"parent":0,"variant":id,"unknown":true}));
+        self.blocks.push(None);
+        id
+    }
+
     /// A placeholder learnt later: fill in its real description.
     pub fn refine(&mut self, id: usize, round: u64, author: i64, parent: &Digest) {
-        if self.info[id].get("unknown").is_some() {
+        let ix = self.ix(id);
+        if self.info[ix].get("unknown").is_some() {
             let parent_id = self.by_digest.get(parent).cloned().unwrap_or(0);
-            self.info[id] =
+            self.info[ix] =
                 json!({"id":id,"round":round,"author":author,"parent":parent_id,"variant":0});
-            self.fresh.push(id);
         }
     }
 }
 
 impl Rig {
     pub fn new(cfg: RigCfg) -> Self {
+        Self::with_base(cfg, 0)
+    }
+
+    pub fn with_base(cfg: RigCfg, id_base: usize) -> Self {
         let mut rng = StdRng::from_seed([cfg.key_seed; 32]);
         let mut keys: Vec<(PublicKey, SecretKey)> =
             (0..cfg.n).map(|_| generate_keypair(&mut rng)).collect();
@@ -263,7 +316,7 @@ impl Rig {
             inflight: VecDeque::new(),
             next_frame: 0,
             inject: HashMap::new(),
-            dict: BlockDict::new(),
+            dict: BlockDict::new(id_base),
             events: Vec::new(),
             raw_hook_events: 0,
             panics: Vec::new(),
@@ -456,6 +509,8 @@ impl Rig {
     // ---- abstraction of hook events into step records ------------------------------------------------
 
     fn blk_id_from_desc(&mut self, b: &Value) -> usize {
+        // register the parent first (its round is known from the QC)
+        let _ = self.abs_qc(&b["qc"]);
         let digest = hex_digest(b["id"].as_str().unwrap());
         let parent = hex_digest(b["qc"]["hash"].as_str().unwrap());
         let round = b["round"].as_u64().unwrap();
@@ -474,14 +529,7 @@ impl Rig {
             return id;
         }
         // a digest nobody has described yet (e.g. a vote for an unseen block)
-        let id = self.dict.info.len();
-        self.dict.by_digest.insert(d, id);
-        self.dict
-            .info
-            .push(json!({"id":id,"round":round_hint,"author":-2,"parent":0,"variant":id,"unknown":true}));
-        self.dict.blocks.push(None);
-        self.dict.fresh.push(id);
-        id
+        self.dict.placeholder(d, round_hint)
     }
 
     fn abs_tc(&self, tc: &Value) -> Value {
@@ -500,7 +548,7 @@ impl Rig {
 
     fn abs_tc_full(&self, tc: &Value) -> Value {
         if tc.is_null() {
-            return Value::Null;
+            return json!({"round":-1,"votes":[]});
         }
         let votes: Vec<Value> = tc["votes"]
             .as_array()
@@ -523,12 +571,7 @@ impl Rig {
     }
 
     fn flush_fresh(&mut self) {
-        let fresh: Vec<usize> = self.dict.fresh.drain(..).collect();
-        for id in fresh {
-            let mut v = self.dict.info[id].clone();
-            v["t"] = json!("blk");
-            self.events.push(v);
-        }
+        self.dict.fresh.clear();
     }
 
     fn absorb(&mut self, e: Value) {
@@ -905,9 +948,15 @@ impl Rig {
         t
     }
 
-    /// Write the abstract trace as ndjson.
-    pub fn trace_lines(&self) -> Vec<String> {
-        self.events.iter().map(|e| e.to_string()).collect()
+    /// The abstract trace of this run: block dictionary first, then the events in order.
+    pub fn trace_records(&self) -> Vec<Value> {
+        let mut v = self.dict.records();
+        v.extend(self.events.iter().cloned());
+        v
+    }
+
+    pub fn next_id_base(&self) -> usize {
+        self.dict.base + self.dict.info.len() - 1
     }
 
     pub fn cleanup(&mut self) {
